@@ -1,27 +1,21 @@
-// vh - verification harness driver: runs the real cell2 code on generated or replayed
-// operation sequences and writes the projected observables as JSONL cases.
-package main
+package hx
 
 import (
 	"flag"
 	"fmt"
 	"os"
-
-	"verifh/hx"
 )
 
-type driver func(cfg *hx.Config) error
-
-var drivers = map[string]driver{}
-
-func main() {
+// Main is the entry point shared by every per-property harness binary
+// (harness/cmd/<id>/main.go):  <bin> <PROP> [flags].
+func Main(run func(cfg *Config) error) {
 	if len(os.Args) < 2 {
-		fmt.Fprintln(os.Stderr, "usage: vh <property> [flags]")
+		fmt.Fprintln(os.Stderr, "usage: <harness> <property> [flags]")
 		os.Exit(2)
 	}
 	prop := os.Args[1]
 	fs := flag.NewFlagSet(prop, flag.ExitOnError)
-	cfg := &hx.Config{}
+	cfg := &Config{}
 	fs.Int64Var(&cfg.Seed, "seed", 1, "PRNG seed")
 	fs.IntVar(&cfg.N, "n", 300, "number of generated cases")
 	fs.StringVar(&cfg.Tier, "tier", "quick", "quick|thorough")
@@ -29,20 +23,15 @@ func main() {
 	fs.StringVar(&cfg.Out, "out", "cases.jsonl", "output JSONL")
 	fs.StringVar(&cfg.Scratch, "scratch", "", "scratch directory")
 	fs.Parse(os.Args[2:])
-	d, ok := drivers[prop]
-	if !ok {
-		fmt.Fprintf(os.Stderr, "vh: unknown property %q\n", prop)
-		os.Exit(2)
-	}
 	if err := cfg.Open(); err != nil {
-		fmt.Fprintln(os.Stderr, "vh:", err)
+		fmt.Fprintln(os.Stderr, "harness:", err)
 		os.Exit(2)
 	}
-	err := d(cfg)
+	err := run(cfg)
 	cfg.Close()
 	if err != nil {
-		fmt.Fprintln(os.Stderr, "vh:", err)
+		fmt.Fprintln(os.Stderr, "harness:", err)
 		os.Exit(3)
 	}
-	fmt.Printf("vh %s: %d cases\n", prop, cfg.Emitted())
+	fmt.Printf("harness %s: %d cases\n", prop, cfg.Emitted())
 }
